@@ -211,6 +211,7 @@ def analyses():
     reg("room_linear", lambda m, p: sol(fa.room(m, linear=True)))
     reg("room_mip", lambda m, p: sol(fa.room(m, linear=False, delta=0.05)))
     reg("geometric_fba", lambda m, p: sol(fa.geometric_fba(m, processes=p, max_tries=20)), True)
+    reg("geometric_fba_small_epsilon", lambda m, p: sol(fa.geometric_fba(m, epsilon=1e-9, processes=p, max_tries=20)), True)
     reg("loopless_solution", lambda m, p: sol(fa.loopless_solution(m)))
     reg("loopless_solution_fluxes", lambda m, p: sol(fa.loopless_solution(m, fluxes=m.optimize().fluxes)))
 
